@@ -171,13 +171,15 @@ impl<'a> PrettyPrinter<'a> {
 
     /// The indentation of the lines of an item after its first one. Typst derives the nesting
     /// of items from indentation, so it can never be zero. And when the body starts with another
-    /// item on the line of the marker (`10. - a`), the lines of that inner item are indented
-    /// relative to its own marker, which sits one blank behind the outer marker.
+    /// item on the line of the marker (`10. - a`), the column of that inner marker, one blank
+    /// behind the outer marker, separates what belongs to the inner item (lines indented further,
+    /// which get the indentation of the inner item on top) from what belongs to the outer one.
     fn list_item_indent(&self, item: &'a SyntaxNode) -> usize {
         let indent = self.config.tab_spaces.max(1);
         let mut children = item.children();
         let marker_len = children.next().map_or(1, |marker| marker.text().len());
         let starts_with_item = children
+            .take_while(|it| !(it.kind() == SyntaxKind::Space && it.text().has_linebreak()))
             .find(|it| it.kind() == SyntaxKind::Markup)
             .and_then(|body| body.children().next())
             .is_some_and(|first| {
@@ -187,7 +189,7 @@ impl<'a> PrettyPrinter<'a> {
                 )
             });
         if starts_with_item {
-            indent.max(marker_len + 1)
+            marker_len + 1
         } else {
             indent
         }
